@@ -266,8 +266,13 @@ def check_case(acc, case, project=None) -> list[dict]:
 
     def n_warn(lk):
         """warnings naming this link's target at this link's line (links sit in one-line paragraphs)"""
-        line_pat = r"\d*" if (frontend == "sphinx" and lk["wrap"] == "cell") else str(lk["line"])  # (known finding: no true line)
-        pat = re.compile(r"^(?:.*?):" + line_pat + r": .*target not found: " + re.escape(repr(lk["to"])))
+        if frontend == "sphinx" and lk["wrap"] == "cell":
+            # (known finding: in the Sphinx front end the warning for a link in a table cell carries no line, or a stale
+            # one): count the warnings that name the target and do not sit at the line of another, non-cell link to it
+            others = {str(o["line"]) for o in links if o is not lk and o["to"] == lk["to"] and o["wrap"] != "cell"}
+            pat = re.compile(r"^(?:.*?):(\d*): .*target not found: " + re.escape(repr(lk["to"])))
+            return sum(1 for w in wl if (m := pat.search(w)) and m.group(1) not in others)
+        pat = re.compile(r"^(?:.*?):" + str(lk["line"]) + r": .*target not found: " + re.escape(repr(lk["to"])))
         return sum(1 for w in wl if pat.search(w))
     expected_missing = []
     resolving = missing = clash = 0
